@@ -344,12 +344,15 @@ func (w *World) DrawQuery(s *core.Source, kind int) *Query {
 		if s.Chance(1, 8, "bigk") {
 			q.K = s.Range(10, 80, "kbig")
 			if s.Chance(1, 4, "hugek") {
-				q.K = []int{127, 128, 129, 255, 256, 257, 300, 1000}[s.Intn(8, "khuge")]
+				q.K = []int{127, 128, 129, 255, 256, 257, 300, 1000, 1023, 1024, 1025, 2500}[s.Intn(12, "khuge")]
 			}
 		}
 		if s.Chance(1, 2, "maxdist") {
 			// dyadic, so maxDist^2 is exact
 			q.MaxDist = float64(s.Range(0, int(4*w.W*grid), "md")) / grid
+			if s.Chance(1, 12, "zero-limit") {
+				q.MaxDist = 0 // strictly within 0: nothing qualifies
+			}
 		}
 		if kind == QKNearestMatching {
 			q.F = DrawFilter(s)
